@@ -298,7 +298,7 @@ def run(rep, tier):
     # ---------------------------------------------------------------- R6.8 (shared with C07)
     import os
     from rules import C07
-    rep.rule("R6.8", "the bonded rows of the force-matching matrix are Interaction::Grad: for bond and angle (dihedral in the thorough tier) the gradient with respect to every "
+    rep.rule("R6.8", "the bonded rows of the force-matching matrix are Interaction::Grad: for bond, angle and dihedral the gradient with respect to every "
                      "bead equals the derivative of EvaluateVar and the gradients sum to zero (shared with C07 R7.1); a wrong gradient makes bonded force functions "
                      "that lie in the spline space irreproducible")
     hostI = os.path.join(front.VERIF, "hosts", "csg_interaction.cc")
@@ -310,7 +310,7 @@ def run(rep, tier):
         rep.broken("R6.8", "CGForceMatching::EvalBonded no longer takes its matrix rows from Interaction::Grad")
     else:
         rep.analysed(eb)
-        for cls, nb in (("IBond", 2), ("IAngle", 3)) + ((("IDihedral", 4),) if tier == "thorough" else ()):
+        for cls, nb in (("IBond", 2), ("IAngle", 3), ("IDihedral", 4)):
             try:
                 C07.check_interaction(AliasRep(rep, {"R7.1": "R6.8", "R7.2": "R6.8"}), FI, cls, nb, symbolic=(cls != "IDihedral"))
             except AnalysisBroken as e_:
